@@ -178,7 +178,7 @@ Lemma zseq_phys s off n :
   (forall i, 0 <= i < Z.of_nat n -> phys s i = off + i) ->
   zseq off n = map (phys s) (zseq 0 n).
 Proof.
-  intros H. unfold zseq. rewrite map_map. apply map_ext_in. intros a Ha.
+  intros H. rewrite !zseq_map_seq. rewrite map_map. apply map_ext_in. intros a Ha.
   apply in_seq in Ha. rewrite H by lia. lia.
 Qed.
 
